@@ -369,12 +369,26 @@ def _iter_layout(a, nxt):
         out[('1',)] = ('elem', b)
         drivers.append(b)
     elif src[0] == 'call' and src[1] == 'core::iter::Iterator::zip' and len(src[2]) == 2:
-        b0, b1 = leaf(src[2][0]), leaf(src[2][1])
-        if b0 is None or b1 is None:
+        def zipped(x, prefix):
+            # zip(zip(a, b), c) hands out ((a, b), c): paths ('0','0'), ('0','1'), ('1',)
+            if x[0] == 'call' and x[1] == 'core::iter::Iterator::zip' and len(x[2]) == 2:
+                return zipped(x[2][0], prefix + ('0',)) and zipped(x[2][1], prefix + ('1',))
+            if x[0] == 'call' and x[1] == 'core::iter::Iterator::enumerate' and len(x[2]) == 1:
+                b = leaf(x[2][0])
+                if b is None:
+                    return False
+                out[prefix + ('0',)] = ('index',)
+                out[prefix + ('1',)] = ('elem', b)
+                drivers.append(b)
+                return True
+            b = leaf(x)
+            if b is None:
+                return False
+            out[prefix] = ('elem', b)
+            drivers.append(b)
+            return True
+        if not zipped(src, ()):
             return None
-        out[('0',)] = ('elem', b0)
-        out[('1',)] = ('elem', b1)
-        drivers += [b0, b1]
     elif src[0] == 'agg' and src[2] == 'core::ops::Range::Range':
         f = dict(zip(src[4], src[3]))
         if f.get('start') != ('const', 'usize', 0) or not f.get('end') or f['end'][0] != 'len':
@@ -418,15 +432,28 @@ def _nonce_elementwise_form(rep, facts, a, rt, base_idx, rule):
         return None
     ssite = sts[0][0]
     st = a.stmt_at(ssite)
-    if st.get('k') != 'assign' or st['rv'].get('k') != 'binop' or st['rv'].get('op') != 'BitXor':
+    if st.get('k') == 'assign' and st['rv'].get('k') == 'binop' and st['rv'].get('op') == 'BitXor':
+        v = a.val_rv(st['rv'], ssite)
+        dplace = st['place']
+    elif st.get('k') == 'assign' and st['rv'].get('k') == 'use' and a.val_rv(st['rv'], ssite)[:2] == ('call', 'core::ops::BitXor::bitxor'):
+        c_ = a.val_rv(st['rv'], ssite)
+        if len(c_[2]) != 2:
+            return None
+        v = ('bin', 'BitXor') + tuple(('load', o, ()) if o[0] != 'load' else o for o in c_[2])
+        dplace = st['place']
+    elif st.get('k') == 'call' and ((st.get('func') or {}).get('fn') or {}).get('path') == 'core::ops::BitXor::bitxor' and len(st['args']) == 2:
+        # `*out = a ^ b` on references: <&u8 as BitXor<&u8>>::bitxor(a, b) written straight into *out
+        ops_ = [a.val_op(x, ssite) for x in st['args']]
+        v = ('bin', 'BitXor') + tuple(('load', o, ()) if o[0] != 'load' else o for o in ops_)
+        dplace = st['dest']
+    else:
         return None
-    v = a.val_rv(st['rv'], ssite)
 
     def access(t, is_dest=False):
         """-> (buffer identity, next-call site) of an element access"""
         if is_dest:
-            if st['place']['p'] == ['deref']:
-                ref = a.val_local(st['place']['l'], ssite)
+            if dplace['p'] == ['deref']:
+                ref = a.val_local(dplace['l'], ssite)
                 pth, nx = _payload_path(ref)
                 if nx is None:
                     return None
@@ -487,7 +514,10 @@ def _nonce_elementwise_form(rep, facts, a, rt, base_idx, rule):
         if cv[0] != 'mem' or cv[4]:
             return None
         cw = [w for w in cv[3] if w[2][0] == 'call']
-        if len(cw) != 1 or len(cv[3]) != 1 or not cw[0][3]:
+        # the XOR store itself was resolved to the output buffer above: the coarse root analysis lists it for every buffer the
+        # zipped iterator borrows, which is not a second writer of the counter buffer
+        rest = [w for w in cv[3] if not (w[2][0] == 'store?' and w[0] == ssite)]
+        if len(cw) != 1 or len(rest) != 1 or not cw[0][3]:
             return None
         cinit, cenc = cv[2], cw[0]
         if a.body.local_ty(cl) != a.body.local_ty(l_out):
